@@ -19,7 +19,8 @@ Sections
 Error messages are compared with the `chunk:line:` prefix removed; a difference in the LINE only is counted
 separately ("line-only differences") and is not a disagreement.  Disagreements come in two severities: BEHAVIOUR
 (load/ok flags, values, adds, columns differ) and error-text-only (both sides raise an error at the same point but
-the message text differs).  Exit status 1 when there is any disagreement of either kind.
+the message text differs).  Disagreements that match the catalogue KNOWN (deviations of lua_interp.py from real
+Lua 5.3 found earlier, reported to its maintainers) are labelled; exit status 1 only when there is a NEW one.
 """
 import os
 import random
@@ -63,6 +64,8 @@ class Tally:
         self.err_kinds = {}       # normalised error text (digits -> N) -> count
         self.limits = []          # (id, text): exactly one side ran into its execution limit (the limits are not comparable)
         self.extra = {}
+        self.new = 0
+        self.quiet_known = False
 
     def ok(self):
         self.n += 1
@@ -157,30 +160,32 @@ def diff_lines(a, b, what):
     if a == b:
         return None, None
     sev = "text"
-    first = None
+    shown = []
+    ndiff = 0
     for i in range(max(len(a), len(b))):
         x = a[i] if i < len(a) else None
         y = b[i] if i < len(b) else None
         if x == y:
             continue
-        if first is None:
-            first = "%s #%d: python %s\n                         real   %s" % (what, i, unser_line(x), unser_line(y))
+        ndiff += 1
+        if len(shown) < 6:
+            shown.append("%s #%d: python %s\n                         real   %s" % (what, i, unser_line(x), unser_line(y)))
         if x is None or y is None:
             sev = "behaviour"
-            break
+            continue
         xs, ys = x.split(" "), y.split(" ")
         if len(xs) != len(ys):
             sev = "behaviour"
-            break
+            continue
         for j in range(len(xs)):
             if xs[j] != ys[j]:
                 if not (j > 0 and xs[j - 1] == "false" and ys[j - 1] == "false" and xs[j].startswith("s:") and ys[j].startswith("s:")):
                     sev = "behaviour"
                 elif split_err(bytes.fromhex(xs[j][2:]).decode("latin-1"))[2] == split_err(bytes.fromhex(ys[j][2:]).decode("latin-1"))[2]:
-                    sev = "behaviour"       # same text, different line: error(msg, level) semantics
-        if sev == "behaviour":
-            break
-    return sev, first
+                    sev = "behaviour"       # same text, different position: error(msg, level) semantics
+    if ndiff > len(shown):
+        shown.append("... and %d more differing lines" % (ndiff - len(shown)))
+    return sev, "\n          ".join(shown)
 
 
 class Dual:
@@ -887,6 +892,56 @@ def section_unit(args, tally):
 
 
 # ---------------------------------------------------------------------------------------------------------
+# Catalogue of the deviations of lua_interp.py / lua_wireshark.py from real Lua 5.3 found with this bench (first run:
+# 2026-09-29, Debian liblua5.3 5.3.6).  A disagreement whose "ident + detail" matches one of the patterns is reported
+# as KNOWN (label in front) and does not make the exit status non-zero; anything else is NEW.
+# B = behaviour, T = message text only.
+
+KNOWN = [
+    ("B1 arithmetic on numeric STRINGS gives an integer ('10' + 5 == 15); Lua 5.3 converts strings to floats (15.0) [5.4 semantics]",
+     r"plain:arith-string-coercion\b|api:u64-as-number|source: return 1 \+ 1, 1 \+ 1\.0, '10' \+ 5"),
+    ("B2 numeric for with STRING bounds loops over integers; Lua 5.3 loops over floats (1.0, 2.0, 3.0)",
+     r"plain:for-string-bounds|source: local n = 0 for i = '1', '3' do"),
+    ("B3 numeric for whose limit is math.maxinteger / mininteger terminates; in Lua 5.3 the index wraps around and the loop never ends [5.4 semantics]",
+     r"plain:for-maxint|plain:for-minint|plain:for-big-step-overflow|source: local s = 0 for i = math\.maxinteger - 1, math\.huge"),
+    ("B4 'for' step 0 raises \"'for' step is zero\"; Lua 5.3 raises nothing (the loop runs 0 times or for ever) [5.4 semantics]",
+     r"plain:for-errors|source: for i = 1, 2, 0 do end"),
+    ("B5 error(msg, level) ignores level >= 2 (always the position of the error call); assert(false, 'msg') does not add the position (Lua 5.3 does)",
+     r"plain:err-error-function|plain:err-error-levels|plain:err-assert"),
+    ("B6 math.floor / math.ceil / math.tointeger of floats outside the int64 range return out-of-range Python integers (real: the float / nil); "
+     "math.tointeger('8') is nil (real: 8)", r"plain:math-floor-big|plain:math-functions"),
+    ("B7 2^64 | 0 gives 0 (real: error 'number has no integer representation')", r"plain:arith-bitwise-errors"),
+    ("B8 tonumber('-9223372036854775808') is a float (real: the integer math.mininteger)", r"plain:tonumber"),
+    ("B9 -0.0 % 3 is 0.0 (real: -0.0)", r"plain:arith-modulo"),
+    ("B10 pairs(nil) fails inside pairs (real: returns next, nil, nil and fails at the first iteration); tostring() returns 'nil' (real: error 'value expected'); "
+     "messages of ipairs() / table.concat / next differ", r"plain:err-stdlib-args"),
+    ("B11 a UTF-8 byte order mark at the start of the file is a syntax error (luaL_loadfile, used by Wireshark, skips it)", r"plain:load-bom"),
+    ("T1 no proper tail calls: `local function f() return f() end f()` is a stack overflow (real: runs for ever)", r"source: local function f\(\) return f\(\) end f\(\)"),
+    ("T2 operand info \"(constant 'abc')\" is appended for string constants [5.4 style]; Lua 5.3 gives none", r"\(constant '"),
+    ("T3 'n%%0' is spelled with two percent signs; integer division by zero says \"attempt to perform 'n//0'\" (this liblua5.3: 'attempt to divide by zero')",
+     r"attempt to perform 'n(//|%%)0'"),
+    ("T4 messages built with tointeger(v, 'bad argument #n to f (') lack the closing parenthesis; the argument number of a method call "
+     "(('%d'):format(3.5), ('x'):rep(u64)) is not decremented as luaL_argerror does", r"\((number has no integer representation|number expected, got \w+)[\"']?\n"),
+    ("T5 no \"(field '?')\" operand info for t[1]() / t[1][2]", r"plain:err-call-kinds|plain:err-index-kinds"),
+    ("T6 userdata are called 'userdata' in type errors; real Lua 5.3 uses the __name of the metatable (Wireshark registers its classes with luaL_newmetatable, "
+     "so it says 'a TvbRange value', 'got UInt64')", r"a userdata value|got userdata"),
+    ("T7 assignment to a field of a userdata without setter: no \"(field 'info')\" operand info", r"attempt to index a Column value"),
+    ("T8 generic-for messages: 'got no value' (real 'got nil'), \"(for iterator 'for iterator')\" [5.4 style]", r"for iterator"),
+    ("T9 wording of syntax errors (quoting of <eof>, break outside a loop, malformed number, escapes in strings, unfinished long string/comment)",
+     r"expected near '2'|outside a loop|malformed number|invalid escape sequence|decimal escape too large|unfinished long"),
+]
+_KNOWN_RE = [(label, re.compile(pat)) for label, pat in KNOWN]
+
+
+def known_label(ident, detail):
+    text = ident + "\n" + detail + "\n"
+    for label, rx in _KNOWN_RE:
+        if rx.search(text):
+            return label.split(" ", 1)[0]
+    return None
+
+
+# ---------------------------------------------------------------------------------------------------------
 
 SECTIONS = [("corpus", section_corpus, "generated dissectors over wire messages"),
             ("plain", section_plain, "hand-written plain Lua snippets"),
@@ -907,10 +962,17 @@ def report(t, verbose):
             print("      %6d x %s" % (n, k[:150]))
         if not verbose and len(t.err_kinds) > 12:
             print("      ... %d more distinct messages (-v shows all)" % (len(t.err_kinds) - 12))
-    for ident, what, detail in t.dis:
-        print("  DISAGREE %s\n        %s\n          %s" % (ident, what, clip(detail)))
-    for ident, what, detail in t.minor:
-        print("  text-only %s\n        %s\n          %s" % (ident, what, clip(detail)))
+    t.new = 0
+    for kind, items in (("DISAGREE", t.dis), ("text-only", t.minor)):
+        for ident, what, detail in items:
+            k = known_label(ident, detail)
+            if k is None:
+                t.new += 1
+            if k is None or verbose or not t.quiet_known:
+                print("  %s %s %s\n        %s\n          %s" % (kind, "NEW" if k is None else "(known %s)" % k, ident, what, clip(detail)))
+    nk = len(t.dis) + len(t.minor) - t.new
+    if nk and t.quiet_known and not verbose:
+        print("  %d disagreements match the catalogue of known deviations (details with -v)" % nk)
     for ident, text in t.limits:
         print("  not-comparable (only one side hit its execution limit) %s: %s" % (ident, clip(text, 300)))
     if t.line_only:
@@ -931,6 +993,7 @@ def main(argv):
     ap.add_argument("--only", default="", help="comma separated sections: corpus,plain,api,unit")
     ap.add_argument("--cli", default=DEFAULT_CLI, help="fin-protoc binary (default %s)" % DEFAULT_CLI)
     ap.add_argument("--keep", default=None, help="directory for the rendered DSL and emitted dissectors")
+    ap.add_argument("--quiet-known", action="store_true", help="do not print the details of disagreements that match the catalogue KNOWN")
     ap.add_argument("-v", "--verbose", action="store_true")
     args = ap.parse_args(argv)
     want = set(x for x in args.only.split(",") if x)
@@ -947,6 +1010,7 @@ def main(argv):
         if want and name not in want:
             continue
         t = Tally(name)
+        t.quiet_known = args.quiet_known
         t0 = time.time()
         print("== %s: %s" % (name, title))
         fn(args, t)
@@ -971,8 +1035,14 @@ def main(argv):
         tot_a += t.agree
         tot_d += len(t.dis)
         tot_m += len(t.minor)
-    print("  total   comparisons %5d  agreements %5d  behaviour disagreements %3d  error-text-only %3d" % (tot_n, tot_a, tot_d, tot_m))
-    return 1 if tot_d or tot_m else 0
+    new = sum(t.new for t in tallies)
+    print("  total   comparisons %5d  agreements %5d  behaviour disagreements %3d  error-text-only %3d   ->  %d known deviations of lua_interp, %d NEW" % (
+        tot_n, tot_a, tot_d, tot_m, tot_d + tot_m - new, new))
+    if tot_d + tot_m:
+        print("== catalogue of known deviations of lua_interp.py / lua_wireshark.py from real Lua 5.3 (B = behaviour, T = message text)")
+        for label, _ in KNOWN:
+            print("  " + label)
+    return 1 if new else 0
 
 
 if __name__ == "__main__":
